@@ -161,6 +161,15 @@ APPROX_COMMON = dict(
     returns='Arr[Bool]',
     requires=["len(q1_score) >= 1"],
     raises={'RuntimeError': ('iff', BAD_LEN + " or " + BAD_ORDER)},
+    inline_asserts={
+        # the candidate set only holds gene positions (np.where of a mask over the genes)
+        "to_use = set(np.where(qdiff_dist <= cutoff)[0])": [
+            "all(0 <= x < len(q1_score) for x in to_use)"],
+        "to_use = to_use.union(set(np.where(q1_dist <= cutoff)[0]))": [
+            "all(0 <= x < len(q1_score) for x in to_use)"],
+        "to_use = to_use.union(set(np.where(fold_dist <= cutoff)[0]))": [
+            "all(0 <= x < len(q1_score) for x in to_use)"],
+    },
 )
 
 contract(
@@ -179,14 +188,28 @@ contract(
     **APPROX_COMMON,
 )
 
+def _s4_witness_approx():
+    import numpy as np
+    return dict(q1_score=np.array([0.499995]), qdiff_score=np.array([0.9]), log2_fold=np.array([2.0]),
+                q1_th=0.5, q1_min_th=0.499999, qdiff_th=0.7, qdiff_min_th=0.1, log2_fold_th=1.0,
+                log2_fold_min_th=0.8, n_valid=0)
+
+
+# the witness class of S-4: some gene lies BELOW a floor and yet within the tolerance of the strict
+# corner (distance^2 < 1e-10 - only possible when a strict threshold is within 1e-5 of its floor)
+S4_CLASS = "any(not " + FLOOR_OK + " and " + TRUE_DIST + " < 1.0e-10 for g in range(len(q1_score)))"
+
 contract(
     M + 'approx_penetrance_test#floors',
     properties=['C11'],
     native=dict(gen=_gen_approx),
+    known_findings=[dict(
+        id='S-4', exclude=S4_CLASS, witness=_s4_witness_approx,
+        what="approx_penetrance_test accepts a gene below a floor when distance^2 to the strict corner < 1e-10")],
     ensures=[
         # C11 soundness w.r.t. the floors: an accepted gene lies on or above every floor.
-        # FAILS - finding S-4: `absolutely_valid = distance_sq < 1e-10` does not look at the floors.
-        # Kept in a separate view so that no caller's proof assumes it.
+        # FAILS on the class S4_CLASS - finding S-4: `absolutely_valid = distance_sq < 1e-10` does not
+        # look at the floors.  Kept in a separate view so that no caller's proof assumes it.
         "all(implies(result[g], " + FLOOR_OK + ") for g in range(len(q1_score)))",
     ],
     **APPROX_COMMON,
@@ -341,6 +364,15 @@ contract(
     returns='Arr[Bool]',
     requires=STATS_OK + [IDX_OK, "implies(not exact_penetrance, " + NG + " >= 1)"],
     raises={'RuntimeError': ('iff', "not exact_penetrance and " + BAD_ORDER)},
+    inline_asserts={
+        # the complement mask flags exactly the genes outside the list ...
+        "invalid_mask = np.logical_not(invalid_mask)": [
+            "all(invalid_mask[g] == (g not in valid_gene_idx) for g in range(len(invalid_mask)))"],
+        # ... and those genes carry the sentinel -1 in all three quantities
+        "log2_fold[invalid_mask] = -1.0": [
+            "all(implies(g not in valid_gene_idx, pij_1[g] == -1.0 and pij_2[g] == -1.0 and log2_fold[g] == -1.0) "
+            "for g in range(len(invalid_mask)))"],
+    },
     ensures=[
         "len(result) == " + NG,
         # gene-list restriction (the sentinel -1 written over unlisted genes must fall below a floor)
@@ -386,6 +418,22 @@ def _pen_facts(mask):
     ]
 
 
+def _post_facts(mask):
+    """what the last penetrance mask satisfies, stated against the ORIGINAL gene list (so that the
+    facts do not mention the loop-carried, re-assigned `valid_gene_idx`)"""
+    m = mask
+    return [
+        "len(%s) == " % m + NG,
+        "implies(" + SANE + ", all(implies(%s[g], " % m + ORIG_LIST + ") for g in range(" + NG + ")))",
+        "implies(exact_penetrance and " + SANE + ", all(implies(%s[g], " % m + _from_stats(STRICT) +
+        ") for g in range(" + NG + ")))",
+        "all(implies(" + ORIG_LIST + " and pvalue_valid[g] and " + _from_stats(STRICT) + ", %s[g]) " % m +
+        "for g in range(" + NG + "))",
+        "implies(exact_penetrance and " + SANE + ", all(implies(%s[g], " % m + _from_stats(FLOOR_OK) +
+        ") for g in range(" + NG + ")))",
+    ]
+
+
 def _gen_score(rng, size):
     d = _gen_pen_from_stats(rng, size)
     d.update(p_th=rng.choice([0.01, 0.2, 0.9]), n_cells_min=rng.choice([2, 2, 2, 1, 3]),
@@ -417,7 +465,7 @@ SCORE_COMMON = dict(
         "implies(not keep_going, all(validity_mask[g] == (pvalue_valid[g] and penetrance_mask[g]) "
         "for g in range(" + NG + ")))",
         "implies(not keep_going, len(validity_mask) == " + NG + ")",
-    ] + ["implies(not keep_going, " + f + ")" for f in _pen_facts('penetrance_mask')]},
+    ] + ["implies(not keep_going, " + f + ")" for f in _post_facts('penetrance_mask')]},
 )
 
 contract(
@@ -438,11 +486,10 @@ contract(
         # exact penetrance: nothing else is recorded
         "implies(exact_penetrance and " + SANE + ", all(implies(result[1][g], " + _from_stats(STRICT) +
         ") for g in range(" + NG + ")))",
-        # floors: exact mode; approximate mode as far as it holds (see the view #floors, S-4)
+        # floors: exact mode here; approximate mode: the view #floors (FAILS, finding S-4; the exact
+        # extent of the deviation - distance^2 < 1e-10 - is proved for penetrance_from_stats)
         "implies(exact_penetrance and " + SANE + ", all(implies(result[1][g], " + _from_stats(FLOOR_OK) +
         ") for g in range(" + NG + ")))",
-        "implies(" + SANE + ", all(implies(result[1][g] and not " + _from_stats(FLOOR_OK) + ", " +
-        _from_stats(TRUE_DIST) + " < 1.0e-10) for g in range(" + NG + ")))",
         # direction = sign of the difference of the mean log2(CPM+1)
         "implies(" + ENOUGH + ", all(result[2][g] == (1 if precomputed_stats[node_2]['mean'][g] > "
         "precomputed_stats[node_1]['mean'][g] else 0) for g in range(" + NG + ")))",
@@ -451,15 +498,53 @@ contract(
     **SCORE_COMMON,
 )
 
+def _gen_score_s4(rng, size):
+    """half of the cases: a fold change 5e-6 below its floor with the strict threshold 1e-6 above it"""
+    import numpy as np
+    if rng.random() < 0.5:
+        return _gen_score(rng, size)
+    n = rng.randint(1, 3)
+    floor = rng.choice([0.5, 0.8])
+    a = dict(mean=np.zeros(n), var=np.full(n, 1.0e-4), n_cells=50, ge1=np.zeros(n, dtype=int))
+    b = dict(mean=np.full(n, floor - 0.000005), var=np.full(n, 1.0e-4), n_cells=50, ge1=np.full(n, 50, dtype=int))
+    return dict(node_1='cluster/a', node_2='cluster/b', precomputed_stats={'cluster/a': a, 'cluster/b': b},
+                p_th=0.01, q1_th=0.5, q1_min_th=0.1, qdiff_th=0.7, qdiff_min_th=0.1,
+                log2_fold_th=floor + 0.000001, log2_fold_min_th=floor, n_cells_min=2, boring_t=None, big_nu=None,
+                exact_penetrance=False, n_valid=rng.choice([0, 1, 30]), n_valid_min=rng.choice([0, 10]),
+                valid_gene_idx=None)
+
+
+def _s4_witness_score():
+    import numpy as np
+    a = dict(mean=np.zeros(1), var=np.full(1, 1.0e-4), n_cells=50, ge1=np.zeros(1, dtype=int))
+    b = dict(mean=np.full(1, 0.499995), var=np.full(1, 1.0e-4), n_cells=50, ge1=np.full(1, 50, dtype=int))
+    return dict(node_1='cluster/a', node_2='cluster/b', precomputed_stats={'cluster/a': a, 'cluster/b': b},
+                p_th=0.01, q1_th=0.5, q1_min_th=0.1, qdiff_th=0.7, qdiff_min_th=0.1,
+                log2_fold_th=0.500001, log2_fold_min_th=0.5, n_cells_min=2, boring_t=None, big_nu=None,
+                exact_penetrance=False, n_valid=1, n_valid_min=0, valid_gene_idx=None)
+
+
+S4_CLASS_STATS = ("any(not " + _from_stats(FLOOR_OK) + " and " + _from_stats(TRUE_DIST) +
+                  " < 1.0e-10 for g in range(" + NG + "))")
+_floors_common = dict(SCORE_COMMON)
+_floors_common['loops'] = {0: SCORE_COMMON['loops'][0] + [
+    # the extent of S-4, carried through the loop: below a floor only within the tolerance
+    "implies(not keep_going and " + SANE + ", all(implies(penetrance_mask[g] and not " + _from_stats(FLOOR_OK) +
+    ", " + _from_stats(TRUE_DIST) + " < 1.0e-10) for g in range(" + NG + ")))"]}
+
 contract(
     M + 'score_differential_genes#floors',
     properties=['C11'],
-    native=dict(gen=_gen_score),
+    native=dict(gen=_gen_score_s4),
+    known_findings=[dict(
+        id='S-4', exclude=S4_CLASS_STATS, witness=_s4_witness_score,
+        what="score_differential_genes records a marker whose fold change / penetrance is below its floor by < 1e-5")],
     ensures=[
         # C11: a recorded marker lies on or above every penetrance / fold-change floor.
-        # FAILS in approximate mode - finding S-4 (root cause: approx_penetrance_test#floors)
+        # FAILS in approximate mode on the class S4_CLASS_STATS - finding S-4 (root cause:
+        # approx_penetrance_test#floors)
         "implies(" + SANE + ", all(implies(result[1][g], " + _from_stats(FLOOR_OK) +
         ") for g in range(" + NG + ")))",
     ],
-    **SCORE_COMMON,
+    **_floors_common,
 )
